@@ -54,6 +54,8 @@ fn psafe(c: &LruCache<HK, HV, BH>) {
 }
 
 fn prebuilt_hk(n: u8, cap: usize) -> LruCache<HK, HV, BH> {
+    // the double's hash-routing monitor would itself call the hasher inside `insert`: off here
+    unsafe { table::MONITOR_HASH = false; }
     let mut c: LruCache<HK, HV, BH> = LruCache::with_capacity_and_hasher(usize::MAX / 2, cap, BH::default());
     let mut k = 0u8;
     while k < n {
@@ -72,10 +74,8 @@ fn disarm() -> u32 { unsafe { CB_CACHE = std::ptr::null(); CB_CALLS } }
 #[kani::unwind(6)]
 fn q_cb_try_reallocate() {
     let mut c = prebuilt_hk(2, 2);
-    let newcap: usize = kani::any();
-    kani::assume(newcap >= 2 && newcap <= 3);
     arm(&c);
-    let _ = c.try_reallocate(newcap);
+    let _ = c.try_reallocate(3);
     let calls = disarm();
     assert!(calls >= 2, "vacuity guard: the Hash call-backs were not reached");
     psafe(&c);
